@@ -117,14 +117,15 @@ theorem SoundFrom.then {last st : Option Tok} {a b : List PTok} (ha : SoundFrom 
   exact h1.append (hb lt h2)
 
 theorem soundFrom_wrap {last : Option Tok} {l : List PTok} (b : Bool) (hl : okBefore last = true)
-    (h : ∀ last', okBefore last' = true → SoundFrom last' l) : SoundFrom last (wrapI b l) := by
+    (hin : b = true → SoundFrom (some (.op .LPAREN)) l) (hout : b = false → SoundFrom last l) :
+    SoundFrom last (wrapI b l) := by
   cases b with
-  | false => exact h last hl
+  | false => exact hout rfl
   | true =>
     simp only [wrapI, if_true]
     have h1 : SoundTo last ([pop .LPAREN] ++ (l ++ [pop .RPAREN])) (some (.op .RPAREN)) :=
       (soundTo_start hl (by rfl)).append
-        ((h (some (.op .LPAREN)) (by rfl)).then (fun lt hlt => soundTo_after hlt (by rfl)))
+        ((hin rfl).then (fun lt hlt => soundTo_after hlt (by rfl)))
     exact ⟨.op .RPAREN, by simpa using h1, rfl⟩
 
 theorem isBefore_unop {o : Op} (h : (isUnaryOp o || o == .ARROW) = true) : isBefore (.op o) = true := by
@@ -142,24 +143,105 @@ theorem pairOK_ident_op (s : Str) (o : Op) : pairOK (.ident s) (.op o) = true :=
 theorem pairOK_lit_unit (k : LitKind) (v u : Str) : pairOK (.lit k v) (.unit u) = true := by
   cases k <;> simp [pairOK, combines]
 
+/-- The printed form starts with `=>` (a lambda without parameters, not parenthesised). -/
+def startsArrow : XExpr → Nat → Bool
+  | .lambda [] false _ _, p => p == lowestPrec
+  | _, _ => false
+
+/-- Delimiters after which the printer writes an expression at the lowest precedence. -/
+def okDelim : Option Tok → Bool
+  | none => true
+  | some (.op o) => o == .LPAREN || o == .LBRACK || o == .COLON
+  | _ => false
+
+/-- The state before printing `e` at precedence `p` is acceptable. -/
+def OkFor (e : XExpr) (p : Nat) (last : Option Tok) : Prop :=
+  okBefore last = true ∧ (startsArrow e p = true → okDelim last = true)
+
+theorem okBefore_of_okDelim {last : Option Tok} (h : okDelim last = true) : okBefore last = true := by
+  cases last with
+  | none => rfl
+  | some t =>
+    cases t with
+    | op o => cases o <;> simp [okDelim] at h <;> simp [okBefore, isBefore]
+    | _ => simp [okDelim] at h
+
+theorem okFor_delim {e : XExpr} {p : Nat} {last : Option Tok} (h : okDelim last = true) : OkFor e p last :=
+  ⟨okBefore_of_okDelim h, fun _ => h⟩
+
+theorem okFor_pos {e : XExpr} {p : Nat} {last : Option Tok} (hp : 1 ≤ p) (h : okBefore last = true) :
+    OkFor e p last := by
+  refine ⟨h, fun hc => ?_⟩
+  cases e <;> simp [startsArrow] at hc
+  rename_i lhs lp rhs rp
+  cases lhs <;> cases lp <;> simp [lowestPrec] at hc
+  omega
+
+theorem okFor_notArrow {e : XExpr} {p : Nat} {last : Option Tok} (hn : startsArrow e p = false)
+    (h : okBefore last = true) : OkFor e p last :=
+  ⟨h, fun hc => by rw [hn] at hc; cases hc⟩
+
+theorem pairLast_delim_arrow {last : Option Tok} (h : okDelim last = true) :
+    pairLast last (.op .DRARROW) = true := by
+  cases last with
+  | none => rfl
+  | some t =>
+    cases t with
+    | op o => cases o <;> simp [okDelim] at h <;> decide
+    | _ => simp [okDelim] at h
+
+/-- Parameter names separated by `, `. -/
+theorem soundTo_identToks : ∀ (s : Str) (l : List Str) (last : Option Tok), pairLast last (.ident s) = true →
+    ∃ s', SoundTo last (identToks (s :: l)) (some (.ident s'))
+  | s, [], last, h => ⟨s, soundTo_tok h⟩
+  | s, s2 :: l, last, h => by
+    obtain ⟨s', hs'⟩ := soundTo_identToks s2 l none rfl
+    refine ⟨s', ?_⟩
+    have := (soundTo_tok (x := .ident s) h).append
+      ((soundTo_tok (last := some (.ident s)) (x := .op .COMMA) (by simp [pairLast, pairOK_ident_op])).append
+        ((soundTo_blank _).append hs'))
+    simpa [identToks, pop] using this
+
+/-- Items of the parameter part / result part of a lambda (as in the LambdaExpr case of `printE`). -/
+def lamLhsI (lhs : List Str) (lp : Bool) : List PTok :=
+  if lp = true then pop .LPAREN :: identToks lhs ++ [pop .RPAREN, .blank]
+  else match lhs with
+    | [] => []
+    | s :: _ => [.t (.ident s), .blank]
+
+def lamRhsI (rhs : List XExpr) (rp : Bool) : List PTok :=
+  if rp = true then pop .LPAREN :: printL rhs 1 ++ [pop .RPAREN]
+  else match rhs with
+    | [] => [.bad]
+    | e :: _ => printE e lowestPrec 1
+
+theorem printE_lambda_shape (lhs : List Str) (lp : Bool) (rhs : List XExpr) (rp : Bool) (p d : Nat) :
+    printE (.lambda lhs lp rhs rp) p d =
+      wrapI (decide (lowestPrec < p)) (lamLhsI lhs lp ++ [pop .DRARROW, .blank] ++ lamRhsI rhs rp) := by
+  cases lhs <;> cases rhs <;> cases lp <;> cases rp <;> simp [printE, wrapI, lamLhsI, lamRhsI]
+
+theorem startsArrow_paren {x : XExpr} (h : isParenNode x = true) (p : Nat) : startsArrow x p = false := by
+  cases x <;> simp [isParenNode] at h
+  rfl
+
 mutual
 theorem sound_printE : ∀ (e : XExpr), wf e = true → ∀ (p d : Nat) (last : Option Tok),
-    okBefore last = true → SoundFrom last (printE e p d)
+    OkFor e p last → SoundFrom last (printE e p d)
   | .ident s, _, p, d, last, hl => by
-    simp only [printE]; exact ⟨_, soundTo_start hl rfl, rfl⟩
+    simp only [printE]; exact ⟨_, soundTo_start hl.1 rfl, rfl⟩
   | .lit k v, _, p, d, last, hl => by
-    simp only [printE]; exact ⟨_, soundTo_start hl rfl, rfl⟩
+    simp only [printE]; exact ⟨_, soundTo_start hl.1 rfl, rfl⟩
   | .numUnit k v u, _, p, d, last, hl => by
     simp only [printE]
-    exact ⟨.unit u, (soundTo_start (x := .lit k v) hl rfl).append
+    exact ⟨.unit u, (soundTo_start (x := .lit k v) hl.1 rfl).append
       (soundTo_tok (by simp [pairLast, pairOK_lit_unit])), rfl⟩
   | .env s b, _, p, d, last, hl => by
     simp only [printE]
     cases b
-    · exact ⟨.ident s, (soundTo_start (x := .op .ENV) hl rfl).append
+    · exact ⟨.ident s, (soundTo_start (x := .op .ENV) hl.1 rfl).append
         (soundTo_tok (by simp [pairLast, pairOK_op_word])), rfl⟩
     · simp only [if_true]
-      exact ⟨.op .RBRACE, (soundTo_start (x := .op .ENV) hl rfl).append
+      exact ⟨.op .RBRACE, (soundTo_start (x := .op .ENV) hl.1 rfl).append
         ((soundTo_tok (x := .op .LBRACE) (by decide)).append
           ((soundTo_tok (x := .ident s) (by simp [pairLast, pairOK_op_word])).append
             (soundTo_tok (x := .op .RBRACE) (by simp [pairLast, pairOK_ident_op])))), rfl⟩
@@ -167,64 +249,74 @@ theorem sound_printE : ∀ (e : XExpr), wf e = true → ∀ (p d : Nat) (last : 
     have h' := h
     simp only [wf, Bool.and_eq_true] at h'
     obtain ⟨⟨hop, hx⟩, hy⟩ := h'
+    have hP : 1 ≤ prec op ∧ prec op < unaryPrec := by simpa [isBinOp] using hop
     obtain ⟨d1, d2, bl, hbl, heq⟩ := printE_binary_shape op x y p d
     rw [heq]
-    refine soundFrom_wrap _ hl (fun last' hl' => ?_)
-    have ihx := sound_printE x hx (prec op) d1 last' hl'
-    simp only [List.append_assoc]
-    cases bl with
-    | true =>
-      obtain ⟨lty, hy1, hy2⟩ := sound_printE y hy (prec op + 1) d2 none rfl
-      exact ⟨lty, ihx.then (fun lt _ => (soundTo_blank _).append
-        ((soundTo_tok (x := .op op) rfl).append ((soundTo_blank _).append hy1))), hy2⟩
-    | false =>
-      obtain ⟨lty, hy1, hy2⟩ := sound_printE y hy (prec op + 1) d2 (some (.op op)) (isBefore_binop hop)
-      exact ⟨lty, ihx.then (fun lt hlt => (soundTo_nil _).append
-        ((soundTo_tok (x := .op op) (by
-          have h4 : 4 ≤ prec op := hbl rfl
-          simp [pairLast, pairOK_end_binop hlt hop h4])).append ((soundTo_nil _).append hy1))), hy2⟩
+    have body : ∀ last', okBefore last' = true →
+        SoundFrom last' (printE x (prec op) d1 ++ optBlank bl ++ [pop op] ++ optBlank bl ++ printE y (prec op + 1) d2) := by
+      intro last' hl'
+      have ihx := sound_printE x hx (prec op) d1 last' (okFor_pos hP.1 hl')
+      simp only [List.append_assoc]
+      cases bl with
+      | true =>
+        obtain ⟨lty, hy1, hy2⟩ := sound_printE y hy (prec op + 1) d2 none (okFor_pos (by omega) rfl)
+        exact ⟨lty, ihx.then (fun lt _ => (soundTo_blank _).append
+          ((soundTo_tok (x := .op op) rfl).append ((soundTo_blank _).append hy1))), hy2⟩
+      | false =>
+        obtain ⟨lty, hy1, hy2⟩ := sound_printE y hy (prec op + 1) d2 (some (.op op))
+          (okFor_pos (by omega) (isBefore_binop hop))
+        exact ⟨lty, ihx.then (fun lt hlt => (soundTo_nil _).append
+          ((soundTo_tok (x := .op op) (by
+            have h4 : 4 ≤ prec op := hbl rfl
+            simp [pairLast, pairOK_end_binop hlt hop h4])).append ((soundTo_nil _).append hy1))), hy2⟩
+    exact soundFrom_wrap _ hl.1 (fun _ => body _ (by rfl)) (fun _ => body _ hl.1)
   | .unary op x, h, p, d, last, hl => by
     have h' := h
     simp only [wf, Bool.and_eq_true] at h'
     obtain ⟨hop, hx⟩ := h'
+    have h6 : 1 ≤ unaryPrec := by decide
     simp only [printE]
     split
-    · obtain ⟨lt, h1, h2⟩ := sound_printE x hx unaryPrec 1 (some (.op op)) (isBefore_unop hop)
-      have := (soundTo_start (x := .op .LPAREN) hl rfl).append
+    · obtain ⟨lt, h1, h2⟩ := sound_printE x hx unaryPrec 1 (some (.op op)) (okFor_pos h6 (isBefore_unop hop))
+      have := (soundTo_start (x := .op .LPAREN) hl.1 rfl).append
         ((soundTo_tok (x := .op op) (pairLast_before_start (last := some (.op .LPAREN)) rfl (isStart_unop hop))).append
           (h1.append (soundTo_after h2 (o := .RPAREN) rfl)))
       exact ⟨.op .RPAREN, by simpa [pop] using this, rfl⟩
-    · obtain ⟨lt, h1, h2⟩ := sound_printE x hx unaryPrec d (some (.op op)) (isBefore_unop hop)
-      have := (soundTo_start (x := .op op) hl (isStart_unop hop)).append h1
+    · obtain ⟨lt, h1, h2⟩ := sound_printE x hx unaryPrec d (some (.op op)) (okFor_pos h6 (isBefore_unop hop))
+      have := (soundTo_start (x := .op op) hl.1 (isStart_unop hop)).append h1
       exact ⟨lt, by simpa [pop] using this, h2⟩
   | .star x, h, p, d, last, hl => by
     have hx : wf x = true := by simpa [wf] using h
+    have h6 : 1 ≤ unaryPrec := by decide
     simp only [printE]
-    obtain ⟨lt, h1, h2⟩ := sound_printE x hx unaryPrec 1 (some (.op .MUL)) (by rfl)
+    obtain ⟨lt, h1, h2⟩ := sound_printE x hx unaryPrec 1 (some (.op .MUL)) (okFor_pos h6 (by rfl))
     split
-    · have := (soundTo_start (x := .op .LPAREN) hl rfl).append
+    · have := (soundTo_start (x := .op .LPAREN) hl.1 rfl).append
         ((soundTo_tok (x := .op .MUL) (by decide)).append
           (h1.append (soundTo_after h2 (o := .RPAREN) rfl)))
       exact ⟨.op .RPAREN, by simpa [pop] using this, rfl⟩
-    · have := (soundTo_start (x := .op .MUL) hl rfl).append h1
+    · have := (soundTo_start (x := .op .MUL) hl.1 rfl).append h1
       exact ⟨lt, by simpa [pop] using this, h2⟩
   | .paren x, h, p, d, last, hl => by
     have hx : wf x = true := by simpa [wf] using h
     simp only [printE]
     split
-    · exact sound_printE x hx lowestPrec d last hl
-    · exact soundFrom_wrap true hl (fun last' hl' => sound_printE x hx lowestPrec (reduceDepth d) last' hl')
+    · rename_i hpn
+      exact sound_printE x hx lowestPrec d last (okFor_notArrow (startsArrow_paren hpn _) hl.1)
+    · exact soundFrom_wrap true hl.1
+        (fun _ => sound_printE x hx lowestPrec (reduceDepth d) _ (okFor_delim (by rfl)))
+        (fun hc => by cases hc)
   | .selector x s, h, p, d, last, hl => by
     have hx : wf x = true := by simpa [wf] using h
     simp only [printE]
-    exact ⟨.ident s, (sound_printE x hx highestPrec d last hl).then (fun lt hlt =>
+    exact ⟨.ident s, (sound_printE x hx highestPrec d last (okFor_pos (by decide) hl.1)).then (fun lt hlt =>
       (soundTo_after hlt (o := .PERIOD) rfl).append
         (soundTo_tok (x := .ident s) (by simp [pairLast, pairOK_op_word]))), rfl⟩
   | .index x i, h, p, d, last, hl => by
     have h' : wf x = true ∧ wf i = true := by simpa [wf] using h
     simp only [printE, List.append_assoc]
-    obtain ⟨lti, hi1, hi2⟩ := sound_printE i h'.2 lowestPrec (d + 1) (some (.op .LBRACK)) (by rfl)
-    exact ⟨.op .RBRACK, (sound_printE x h'.1 highestPrec 1 last hl).then (fun lt hlt =>
+    obtain ⟨lti, hi1, hi2⟩ := sound_printE i h'.2 lowestPrec (d + 1) (some (.op .LBRACK)) (okFor_delim (by rfl))
+    exact ⟨.op .RBRACK, (sound_printE x h'.1 highestPrec 1 last (okFor_pos (by decide) hl.1)).then (fun lt hlt =>
       (soundTo_after hlt (o := .LBRACK) rfl).append (hi1.append (soundTo_after hi2 (o := .RBRACK) rfl))), rfl⟩
   | .call f args ell cmd, h, p, d, last, hl => by
     have h' := h
@@ -232,7 +324,7 @@ theorem sound_printE : ∀ (e : XExpr), wf e = true → ∀ (p d : Nat) (last : 
     obtain ⟨⟨⟨hc, hf⟩, hargs⟩, hell⟩ := h'
     subst hc
     simp only [printE, List.append_assoc, Bool.false_eq_true, if_false]
-    have ihf := sound_printE f hf highestPrec (if args.length > 1 then d + 1 else d) last hl
+    have ihf := sound_printE f hf highestPrec (if args.length > 1 then d + 1 else d) last (okFor_pos (by decide) hl.1)
     cases args with
     | nil =>
       have he : ell = false := by
@@ -259,49 +351,140 @@ theorem sound_printE : ∀ (e : XExpr), wf e = true → ∀ (p d : Nat) (last : 
   | .errWrap x tok none, h, p, d, last, hl => by
     obtain ⟨htok, hx⟩ := wf_errWrap_none h
     simp only [printE, isSome', Bool.false_and, Bool.false_eq_true, if_false, List.append_nil]
+    have ihx := sound_printE x hx highestPrec 1 last (okFor_pos (by decide) hl.1)
     rcases htok with rfl | rfl
-    · exact ⟨.op .NOT, (sound_printE x hx highestPrec 1 last hl).then
-        (fun lt hlt => soundTo_after hlt (o := .NOT) rfl), rfl⟩
-    · exact ⟨.op .QUESTION, (sound_printE x hx highestPrec 1 last hl).then
-        (fun lt hlt => soundTo_after hlt (o := .QUESTION) rfl), rfl⟩
+    · exact ⟨.op .NOT, ihx.then (fun lt hlt => soundTo_after hlt (o := .NOT) rfl), rfl⟩
+    · exact ⟨.op .QUESTION, ihx.then (fun lt hlt => soundTo_after hlt (o := .QUESTION) rfl), rfl⟩
   | .errWrap x tok (some dd), h, p, d, last, hl => by
     obtain ⟨htok, hx, hd⟩ := wf_errWrap_some h
     simp only [printE, isSome', Bool.true_and]
-    refine soundFrom_wrap (decide (unaryPrec < p)) hl (fun last' hl' => ?_)
-    simp only [List.append_assoc]
-    obtain ⟨ltd, hd1, hd2⟩ := sound_printE dd hd unaryPrec 1 (some (.op .COLON)) (by rfl)
-    have hcol : SoundTo (some (.op tok)) (pop .COLON :: printE dd unaryPrec 1) (some ltd) := by
-      have := (soundTo_tok (last := some (.op tok)) (x := .op .COLON) (by
-        rcases htok with rfl | rfl <;> decide)).append hd1
-      simpa [pop] using this
-    rcases htok with rfl | rfl
-    · exact ⟨ltd, (sound_printE x hx highestPrec 1 last' hl').then
-        (fun lt hlt => (soundTo_after hlt (o := .NOT) rfl).append hcol), hd2⟩
-    · exact ⟨ltd, (sound_printE x hx highestPrec 1 last' hl').then
-        (fun lt hlt => (soundTo_after hlt (o := .QUESTION) rfl).append hcol), hd2⟩
+    have body : ∀ last', okBefore last' = true →
+        SoundFrom last' (printE x highestPrec 1 ++ [pop tok] ++ (pop .COLON :: printE dd unaryPrec 1)) := by
+      intro last' hl'
+      simp only [List.append_assoc]
+      obtain ⟨ltd, hd1, hd2⟩ := sound_printE dd hd unaryPrec 1 (some (.op .COLON)) (okFor_pos (by decide) (by rfl))
+      have hcol : SoundTo (some (.op tok)) (pop .COLON :: printE dd unaryPrec 1) (some ltd) := by
+        have := (soundTo_tok (last := some (.op tok)) (x := .op .COLON) (by
+          rcases htok with rfl | rfl <;> decide)).append hd1
+        simpa [pop] using this
+      have ihx := sound_printE x hx highestPrec 1 last' (okFor_pos (by decide) hl')
+      rcases htok with rfl | rfl
+      · exact ⟨ltd, ihx.then (fun lt hlt => (soundTo_after hlt (o := .NOT) rfl).append hcol), hd2⟩
+      · exact ⟨ltd, ihx.then (fun lt hlt => (soundTo_after hlt (o := .QUESTION) rfl).append hcol), hd2⟩
+    exact soundFrom_wrap (decide (unaryPrec < p)) hl.1 (fun _ => body _ (by rfl)) (fun _ => body _ hl.1)
+  | .typeAssert x ty, h, p, d, last, hl => by
+    have hx : wf x = true := by
+      cases ty with
+      | none => simpa [wf] using h
+      | some t => cases t <;> simp [wf] at h; exact h
+    have ihx := sound_printE x hx highestPrec d last (okFor_pos (by decide) hl.1)
+    cases ty with
+    | none =>
+      simp only [printE, List.append_assoc]
+      exact ⟨.op .RPAREN, ihx.then (fun lt hlt => (soundTo_after hlt (o := .PERIOD) rfl).append
+        ((soundTo_tok (x := .op .LPAREN) (by decide)).append
+          ((soundTo_tok (x := .kw kwType) (by simp [pairLast, pairOK, combines])).append
+            (soundTo_tok (x := .op .RPAREN) (by simp [pairLast, pairOK, combines]))))), rfl⟩
+    | some t =>
+      cases t <;> simp [wf] at h
+      rename_i a
+      simp only [printE, List.append_assoc]
+      exact ⟨.op .RPAREN, ihx.then (fun lt hlt => (soundTo_after hlt (o := .PERIOD) rfl).append
+        ((soundTo_tok (x := .op .LPAREN) (by decide)).append
+          ((soundTo_tok (x := .ident a) (by simp [pairLast, pairOK_op_word])).append
+            (soundTo_tok (x := .op .RPAREN) (by simp [pairLast, pairOK_ident_op]))))), rfl⟩
+  | .lambda lhs lp rhs rp, h, p, d, last, hl => by
+    have h' := h
+    simp only [wf, Bool.and_eq_true, Bool.or_eq_true, decide_eq_true_eq] at h'
+    obtain ⟨hlhs, hr⟩ := h'
+    -- right-hand side, printed after `=> `
+    have hrhs : SoundFrom none
+        (lamRhsI rhs rp) := by
+      cases rp with
+      | true =>
+        simp only [lamRhsI, if_true, Bool.and_eq_true, Bool.not_eq_true', List.isEmpty_eq_false_iff] at hr ⊢
+        obtain ⟨ltl, hl1, hl2⟩ := sound_printL rhs hr.2 hr.1 1 (some (.op .LPAREN)) (by rfl)
+        have := (soundTo_tok (last := none) (x := .op .LPAREN) rfl).append
+          (hl1.append (soundTo_after hl2 (o := .RPAREN) rfl))
+        exact ⟨.op .RPAREN, by simpa [pop] using this, rfl⟩
+      | false =>
+        simp only [lamRhsI, Bool.false_eq_true, if_false] at hr ⊢
+        cases rhs with
+        | nil => simp [wfB] at hr
+        | cons b rest =>
+          cases rest with
+          | cons b2 r2 => simp [wfB] at hr
+          | nil =>
+            simp only [wfB, Bool.and_eq_true] at hr
+            exact sound_printE b hr.1 lowestPrec 1 none (okFor_delim rfl)
+    -- `=> ` and the right-hand side, after the state `st`
+    have harrow : ∀ st, pairLast st (.op .DRARROW) = true → ∀ R, SoundFrom none R →
+        SoundFrom st ([pop .DRARROW, .blank] ++ R) := by
+      intro st hst R hR
+      obtain ⟨lt, h1, h2⟩ := hR
+      exact ⟨lt, (soundTo_tok (x := .op .DRARROW) hst).append ((soundTo_blank _).append h1), h2⟩
+    have body : ∀ last', okBefore last' = true → (lp = false → lhs = [] → okDelim last' = true) →
+        SoundFrom last'
+          ((lamLhsI lhs lp) ++ [pop .DRARROW, .blank] ++
+            (lamRhsI rhs rp)) := by
+      intro last' hl' hdel
+      simp only [List.append_assoc]
+      cases lp with
+      | true =>
+        simp only [lamLhsI, if_true]
+        obtain ⟨lt, h1, h2⟩ := harrow none rfl _ hrhs
+        cases lhs with
+        | nil =>
+          have := (soundTo_start (x := .op .LPAREN) hl' rfl).append
+            ((soundTo_tok (last := some (.op .LPAREN)) (x := .op .RPAREN) (by decide)).append
+              ((soundTo_blank _).append h1))
+          exact ⟨lt, by simpa [identToks, pop] using this, h2⟩
+        | cons s l =>
+          obtain ⟨s', hs'⟩ := soundTo_identToks s l (some (.op .LPAREN)) (by simp [pairLast, pairOK_op_word])
+          have := (soundTo_start (x := .op .LPAREN) hl' rfl).append
+            (hs'.append ((soundTo_tok (last := some (.ident s')) (x := .op .RPAREN)
+              (by simp [pairLast, pairOK_ident_op])).append ((soundTo_blank _).append h1)))
+          exact ⟨lt, by simpa [pop] using this, h2⟩
+      | false =>
+        simp only [lamLhsI, Bool.false_eq_true, if_false]
+        cases lhs with
+        | nil =>
+          obtain ⟨lt, h1, h2⟩ := harrow last' (pairLast_delim_arrow (hdel rfl rfl)) _ hrhs
+          exact ⟨lt, by simpa using h1, h2⟩
+        | cons s l =>
+          obtain ⟨lt, h1, h2⟩ := harrow none rfl _ hrhs
+          have := (soundTo_start (x := .ident s) hl' rfl).append ((soundTo_blank _).append h1)
+          exact ⟨lt, by simpa using this, h2⟩
+    have heq := printE_lambda_shape lhs lp rhs rp p d
+    rw [heq]
+    refine soundFrom_wrap _ hl.1 (fun _ => body _ (by rfl) (fun _ _ => by rfl)) (fun hw => body _ hl.1 ?_)
+    intro h1 h2
+    subst h1; subst h2
+    apply hl.2
+    have : ¬ lowestPrec < p := by simpa using hw
+    have hp0 : p = lowestPrec := by have : lowestPrec = 0 := rfl; omega
+    simp [startsArrow, hp0]
   | .slice .., h, _, _, _, _ => by simp [wf] at h
   | .composite .., h, _, _, _, _ => by simp [wf] at h
   | .kv .., h, _, _, _, _ => by simp [wf] at h
   | .sliceLit .., h, _, _, _, _ => by simp [wf] at h
-  | .lambda .., h, _, _, _, _ => by simp [wf] at h
-  | .typeAssert .., h, _, _, _, _ => by simp [wf] at h
   | .range .., h, _, _, _, _ => by simp [wf] at h
   | .tuple .., h, _, _, _, _ => by simp [wf] at h
   | .bad, h, _, _, _, _ => by simp [wf] at h
 theorem sound_printL : ∀ (l : List XExpr), wfL l = true → l ≠ [] → ∀ (d : Nat) (last : Option Tok),
-    okBefore last = true → SoundFrom last (printL l d)
+    okDelim last = true → SoundFrom last (printL l d)
   | [], _, hne, _, _, _ => absurd rfl hne
   | [e], h, _, d, last, hl => by
     have he : wf e = true := by simpa [wfL] using h
     simp only [printL]
-    exact sound_printE e he lowestPrec d last hl
+    exact sound_printE e he lowestPrec d last (okFor_delim hl)
   | e :: e2 :: rest, h, _, d, last, hl => by
     have h' := h
     simp only [wfL, Bool.and_eq_true] at h'
     have hrest : wfL (e2 :: rest) = true := by simp only [wfL, Bool.and_eq_true]; exact h'.2
     simp only [printL, List.append_assoc]
     obtain ⟨ltl, hl1, hl2⟩ := sound_printL (e2 :: rest) hrest (by simp) d none rfl
-    exact ⟨ltl, (sound_printE e h'.1 lowestPrec d last hl).then (fun lt hlt =>
+    exact ⟨ltl, (sound_printE e h'.1 lowestPrec d last (okFor_delim hl)).then (fun lt hlt =>
       (soundTo_after hlt (o := .COMMA) rfl).append ((soundTo_blank _).append hl1)), hl2⟩
 end
 
